@@ -353,6 +353,7 @@ def job_op(job):
 
     runner.install_seams()
     op, seed = job["op"], job["seed"]
+    S.BIG_FRACTION = 0.2 if job.get("tier") == "thorough" else 0.0
     known = driver.load_known()
     agg = Agg()
     t_start = time.monotonic()
@@ -665,6 +666,7 @@ def run_check(args):
                     "budget_B": conf["B"] if "B" in only else 0,
                     "n_real": conf["n_real"] if "R" in only else 0,
                     "race_first": "D" in only and not args.dump,
+                    "tier": tier,
                     **({"dump": True, "max_runs": args.max_runs, "max_runs_B": args.max_runs, "budget_A": 10**6 if "A" in only else 0, "budget_B": 10**6 if "B" in only else 0} if args.dump else {}),
                 }
             )
